@@ -196,6 +196,8 @@ func mk(n int, fill byte) []byte {
 
 const c14Secret = "GEZDGNBVGY3TQOJQGEZDGNBVGY3TQOJQ"
 
+var c14Key = []byte("12345678901234567890")
+
 func checkC14In(c c14InCase) verdict {
 	in := ref.OCRAIn{C: mk(c.Lens[0], c.Fill), Q: mk(c.Lens[1], c.Fill+1), P: mk(c.Lens[2], c.Fill+2), S: mk(c.Lens[3], c.Fill+3), T: mk(c.Lens[4], c.Fill+4)}
 	want := ref.Admissible(c.Cfg, in)
@@ -209,15 +211,19 @@ func checkC14In(c c14InCase) verdict {
 		if (gerr == nil) != want {
 			return bad(true, labels, "GenerateOCRA: suite %+v lengths %v: admissible = %v, library returned (%q, %v)", c.Cfg, c.Lens, want, code, gerr)
 		}
-		probe := "0000000000"[:c.Cfg.Digits]
-		okk, verr := otp.ValidateOCRA(c14Secret, probe, lc, li)
+		// Validation "accepts an input" when it gets as far as judging the code: for an admissible input the correct code
+		// (from the reference) must be accepted; for an inadmissible one nothing may be accepted. Which error value a
+		// refusal carries is not pinned by the statement and is not looked at.
 		if want {
-			// admitted: the verdict is about the code only
-			if !(okk && verr == nil) && !errors.Is(verr, otp.ErrInvalidCode) {
-				return bad(true, labels, "ValidateOCRA: admissible input (suite %+v lengths %v) answered (%v, %v); want a code verdict", c.Cfg, c.Lens, okk, verr)
+			code, rerr := ref.OCRA(c14Key, c.Cfg, in)
+			if rerr != nil {
+				return bad(true, labels, "HARNESS: reference refused an admissible input: %+v %v", c.Cfg, c.Lens)
 			}
-		} else if okk || verr == nil || errors.Is(verr, otp.ErrInvalidCode) {
-			return bad(true, labels, "ValidateOCRA: inadmissible input (suite %+v lengths %v) answered (%v, %v); want an admission error", c.Cfg, c.Lens, okk, verr)
+			if okk, verr := otp.ValidateOCRA(c14Secret, code, lc, li); !okk || verr != nil {
+				return bad(true, labels, "ValidateOCRA: admissible input (suite %+v lengths %v) with the correct code %s answered (%v, %v)", c.Cfg, c.Lens, code, okk, verr)
+			}
+		} else if okk, verr := otp.ValidateOCRA(c14Secret, "0000000000"[:c.Cfg.Digits], lc, li); okk || verr == nil {
+			return bad(true, labels, "ValidateOCRA: inadmissible input (suite %+v lengths %v) answered (%v, %v); want (false, error)", c.Cfg, c.Lens, okk, verr)
 		}
 	}
 	return ok(true, labels...)
@@ -320,4 +326,81 @@ func TestC14_Admission(t *testing.T) {
 	rec.CountOnly(nPair, "pair sweep (Validate)", nil)
 	rec.CountOnly(nPairFull, "pair boundary sweep (Validate+Generate+ValidateOCRA)", s2)
 	rec.Exhaustive()
+}
+
+// Admission for suites obtained from suite STRINGS (the parser fills the configuration): the session token may carry a
+// length (S064, S256 ...) and the challenge token a format; the field rules of the statement are the same for them.
+type c14ParsedCase struct {
+	Name string `json:"name"`
+	Lens [5]int `json:"lens"`
+	Fill byte   `json:"fill"`
+}
+
+var c14Parsed = newPart("C14", "admission-parsed",
+	"enumeration: unregistered suite strings OCRA-1:HOTP-SHA1-6:[C-]QN08|QN10[-PSHA1][-S|S000|S001|S064|S127|S128|S129|S256|S512|S999][-T1M] instantiated by NewRawSuite x every session length 0..140 and 200, 256, 257, 512, 513, 600, 1000 (other fields valid), and every challenge length 0..140; observed at OCRAInput.Validate(suite.Config()), GenerateOCRA and ValidateOCRA (correct code accepted iff admissible); oracle: the admission predicate on the configuration the independent name reader gives; every case distinct",
+	func(c c14ParsedCase) verdict {
+		rd, cls := ref.ReadSuite(c.Name, false)
+		su, err := otp.NewRawSuite(c.Name)
+		if err != nil || cls == ref.Malformed {
+			return ok(false, "suite-not-instantiated")
+		}
+		in := ref.OCRAIn{C: mk(c.Lens[0], c.Fill), Q: mk(c.Lens[1], c.Fill+1), P: mk(c.Lens[2], c.Fill+2), S: mk(c.Lens[3], c.Fill+3), T: mk(c.Lens[4], c.Fill+4)}
+		want := ref.Admissible(rd.Cfg, in)
+		labels := []string{fmt.Sprintf("admissible=%v", want)}
+		li := toLibIn(in)
+		if e := li.Validate(su.Config()); (e == nil) != want {
+			return bad(true, labels, "OCRAInput.Validate: suite %s lengths C,Q,P,S,T=%v: admissible by the rule = %v, library says %v", c.Name, c.Lens, want, e)
+		}
+		code, gerr := otp.GenerateOCRA(c14Secret, su, li)
+		if (gerr == nil) != want {
+			return bad(true, labels, "GenerateOCRA: suite %s lengths %v: admissible = %v, library returned (%q, %v)", c.Name, c.Lens, want, code, gerr)
+		}
+		if want {
+			if okk, verr := otp.ValidateOCRA(c14Secret, code, su, li); !okk || verr != nil {
+				return bad(true, labels, "ValidateOCRA: suite %s, admissible input, the generated code %s answered (%v, %v)", c.Name, code, okk, verr)
+			}
+		} else if okk, verr := otp.ValidateOCRA(c14Secret, "000000", su, li); okk || verr == nil {
+			return bad(true, labels, "ValidateOCRA: suite %s, inadmissible input (lengths %v) answered (%v, %v)", c.Name, c.Lens, okk, verr)
+		}
+		return ok(true, labels...)
+	})
+
+func TestC14_AdmissionParsed(t *testing.T) {
+	defer c14Parsed.rec().Flush()
+	i := 0
+	for _, cTok := range []string{"", "C-"} {
+		for _, q := range []string{"QN08", "QN10"} {
+			for _, pTok := range []string{"", "-PSHA1"} {
+				for _, sTok := range []string{"", "-S", "-S000", "-S001", "-S064", "-S127", "-S128", "-S129", "-S256", "-S512", "-S999"} {
+					for _, tTok := range []string{"", "-T1M"} {
+						name := "OCRA-1:HOTP-SHA1-6:" + cTok + q + pTok + sTok + tTok
+						i++
+						if !ev.Mine(i) {
+							continue
+						}
+						valid := [5]int{8, 10, 20, 5, 8}
+						for _, l := range append(seq(0, 140), 200, 256, 257, 512, 513, 600, 1000) {
+							lens := valid
+							lens[3] = l
+							c14Parsed.each(t, c14ParsedCase{Name: name, Lens: lens, Fill: byte(i + l)})
+						}
+						for l := 0; l <= 140; l++ {
+							lens := valid
+							lens[1] = l
+							c14Parsed.each(t, c14ParsedCase{Name: name, Lens: lens, Fill: byte(i + l + 5)})
+						}
+					}
+				}
+			}
+		}
+	}
+	c14Parsed.rec().Exhaustive()
+}
+
+func seq(lo, hi int) []int {
+	var out []int
+	for v := lo; v <= hi; v++ {
+		out = append(out, v)
+	}
+	return out
 }
